@@ -14,7 +14,7 @@ import (
 
 func init() {
 	mc.Register(&mc.Check{ID: "C08", Category: "exploration",
-		Rule:   "cases: products of (quote variant) x (options value) enumerated per dimension: each of the 11 exact-match options at nil/empty/equal/every single-bit difference/one byte short/long; RTMR lists of length 0..5 over {empty,equal,different,short}; allowed-MR_TD lists of length 0..3 over {equal,different,empty,short,long}; QE/PCE SVN minima around values spanning both bytes; minimum TEE TCB SVN at nil/empty/len 1,15,16,17/each component +-1; every single XFAM and TD_ATTRIBUTES bit; every ordered pair of same-sized fields cross-wired; every pair of field deviations. Non-trivial: at least one option configured or a quote bit changed; distinct by id",
+		Rule:   "cases: products of (quote variant) x (options value) enumerated per dimension: each of the 11 exact-match options at nil/empty/equal/every single-bit difference/one byte short/long; RTMR lists of length 0..5 over {empty,equal,different,short}; allowed-MR_TD lists of length 0..3 over {equal,different,empty,short,long}; QE/PCE SVN minima around values spanning both bytes; minimum TEE TCB SVN at nil/empty/len 1,15,16,17/each component +-1; every single XFAM and TD_ATTRIBUTES bit; every ordered pair of same-sized fields cross-wired; every pair of field deviations; every fixed-length sequence of reconfigurations (fresh slices, in-place edits, list entries replaced, copy by value) and validations on ONE shared options value from two initial states. Non-trivial: at least one option configured or a quote bit changed; distinct by id",
 		Assume: []string{"the reference policy semantics (harness/ref/policy.go) transcribe the statement; architectural fixed-bit masks are an independent copy"},
 		Run:    runC08})
 }
